@@ -11,10 +11,12 @@ import (
 var c03Schemes = []string{"http", "https", "HTTP", "hTTps"}
 var c03Hosts = []string{"a.test", "A.Test", "a.test.", "b.test", "127.0.0.1", "[::1]", "[::1:8080]", "[0:0:0:0:0:0:0:1]", "[::ffff:1.2.3.4]", "[2001:db8::8080]", "[2001:db8::]", "xn--bcher-kva.test", "a%2Etest"}
 var c03Ports = []string{"", "", ":", ":80", ":443", ":8080", ":080", ":8443", ":0"}
-var c03Segs = []string{"a", "A", ".", "..", "%2e", "%2E", "%41", "%61", "~", "%7E", "%7e", "%2F", "%2f", "%20", "é", "%C3%A9", "%c3%a9", "%E9", "%e9", ";p", "a;p=1", ":", "@", "b", "", "%25", "%2541", "+", "%2B", "%00", "*", "%"}
+var c03Segs = []string{"a", "A", ".", "..", "%2e", "%2E", "%41", "%61", "~", "%7E", "%7e", "%2F", "%2f", "%20", "é", "%C3%A9", "%c3%a9", "%E9", "%e9", ";p", "a;p=1", ":", "@", "b", "", "%25", "%2541", "+", "%2B", "%00", "*", "%", "\xe9", "\xe8", "\xef\xbf\xbd"}
 var c03QueryAtoms = []string{"q=1", "q=2", "a=1&b=2", "b=2&a=1", "q=%E9", "q=%e9", "q=é", "q=%C3%A9", "q=%41", "q=A", "q=a", "q=%7E", "q=~", "q=%2F", "q=/", "q=%20", "q=+", "x", "", "q=%3F", "q=?", "q=a#f",
 	// malformed escapes stay as they are: only valid ones take part in normalisation
-	"q=%7z", "q=p", "x=100%zz", "x=100%00", "q=%g1", "q=%G1", "q=%", "q=%4", "q=%41%", "q=%4g", "q=@"}
+	"q=%7z", "q=p", "x=100%zz", "x=100%00", "q=%g1", "q=%G1", "q=%", "q=%4", "q=%41%", "q=%4g", "q=@",
+	// raw bytes that are not UTF-8, and the replacement character a lossy text encoding turns them into
+	"q=\xe9", "q=\xe8", "q=\xef\xbf\xbd", "q=\xc3", "q=\xff\xfe"}
 var c03Userinfo = []string{"", "", "", "u@", "u:p@", "U@"}
 
 func c03URI(t *rapid.T, label string) string {
@@ -57,7 +59,7 @@ func c03Rewrite(t *rapid.T, label, u string) string {
 		}
 		return u
 	}
-	switch rapid.IntRange(0, 31).Draw(t, label) {
+	switch rapid.IntRange(0, 35).Draw(t, label) {
 	case 0:
 		return rep("http://", "HTTP://")
 	case 1:
@@ -122,6 +124,14 @@ func c03Rewrite(t *rapid.T, label, u string) string {
 		return rep("%g1", "%G1")
 	case 31:
 		return rep("q=%4", "q=%04")
+	case 32:
+		return rep("\xe9", "\xef\xbf\xbd")
+	case 33:
+		return rep("\xe9", "\xe8")
+	case 34:
+		return rep("\xe9", "%E9")
+	case 35:
+		return rep("\xef\xbf\xbd", "\xff\xfe")
 	}
 	return u
 }
@@ -168,6 +178,16 @@ func C03(t *rapid.T) *world.Scenario {
 			method = Pick(t, lbl+"-unk", "FOO", "get", "PROPFIND")
 		}
 		sc.Steps = append(sc.Steps, mk(method, b, hdr))
+	}
+	// come back to URIs already used: what the requests in between stored must not have
+	// displaced or shadowed what these get
+	if Pct(t, "again", 40) {
+		k := rapid.IntRange(1, 3).Draw(t, "nagain")
+		first := len(sc.Steps)
+		for j := 0; j < k; j++ {
+			prev := sc.Steps[rapid.IntRange(0, first-1).Draw(t, "again"+itoa(int64(j)))].Req
+			sc.Steps = append(sc.Steps, mk("GET", prev.URL, nil))
+		}
 	}
 	return sc
 }
